@@ -74,7 +74,7 @@ theorem wfV_printE (wd : Nat → Nat) : ∀ (e : Expr), wfE wd e → wfV wd (pri
     have := wfV_printE wd a h
     simp only [printE]
     split
-    · exact this
+    · cases (printE a).2 <;> simpa [wfV, wfVL] using this
     · split <;> simpa [wfV] using this
   | .cat l, h => by
     simp only [wfE] at h
